@@ -40,6 +40,9 @@ func c16Rules() []*bt.GC {
 type c16Case struct {
 	Engine string  `json:"engine"`
 	Ops    []bt.Op `json:"ops"` // GC ops carry Adv (wall-clock advance before the pass)
+	// NoReads: the harness issues no reads of its own between the requests (its state comparisons
+	// would refresh the table's read activity); only the state after each GC pass is compared.
+	NoReads bool `json:"noreads,omitempty"`
 }
 
 // runC16Seq executes the ops; GC ops are judged by the policy oracle:
@@ -53,7 +56,7 @@ func runC16Seq(c *fw.Ctx, cs c16Case) (string, string) {
 	for i := range cs.Ops {
 		o := &cs.Ops[i]
 		if o.Kind != "GC" {
-			if m, cl := w.Step(o, true); m != "" {
+			if m, cl := w.Step(o, !cs.NoReads); m != "" {
 				return m, cl + ":" + o.Kind
 			}
 			continue
@@ -337,12 +340,20 @@ func c16Build(c *fw.Ctx, p c16Param) *schedInst {
 		// per row: writes that touched it, in every order that respects real time, with the
 		// collect step inserted at every position or omitted
 		perRow := map[string][]ev{}
-		for _, w := range writes {
-			perRow[string(w.op.Key)] = append(perRow[string(w.op.Key)], w)
-		}
 		keys := map[string]bool{}
 		for k := range model.Tables[tblT].Rows {
 			keys[k] = true
+		}
+		for _, w := range writes {
+			if w.op.Kind == "DropRowRange" {
+				for k := range keys {
+					if w.op.All || strings.HasPrefix(k, string(w.op.Prefix)) {
+						perRow[k] = append(perRow[k], w)
+					}
+				}
+				continue
+			}
+			perRow[string(w.op.Key)] = append(perRow[string(w.op.Key)], w)
 		}
 		for k := range perRow {
 			keys[k] = true
@@ -455,6 +466,35 @@ func runC16(c *fw.Ctx) {
 					{gcH, {Kind: "SetClock", Clock: c16Clock + 5_000_000}, gcH}, // later server clock, table not written: optional
 					{gcH, rd, gcM},
 				}
+				adv := bt.Op{Kind: "Advance", Adv: int64(time.Hour)}
+				noReadProgs := [][]bt.Op{
+					{adv, rd, gcM},     // written an hour ago but read a minute ago: in active use
+					{rd, adv, wr, gcM}, // read an hour ago but written a minute ago: in active use
+					{adv, gcM},         // idle for an hour: must collect
+					{rd, adv, gcM},
+				}
+				for pi, pr := range noReadProgs {
+					item++
+					if !c.Mine(item) {
+						continue
+					}
+					cs := c16Case{Engine: eng, NoReads: true, Ops: append(append([]bt.Op(nil), base...), pr...)}
+					m, cl := runC16Seq(c, cs)
+					c.Eval(1)
+					c.Trace(1)
+					c.Trans(int64(len(cs.Ops)))
+					if m != "" {
+						c.Violate(fmt.Sprintf("C16:%s:%s:noreads%d", eng, cl, pi), m+"\n  program (no harness reads in between): "+bt.OpsString(cs.Ops), cs, func() string {
+							m2, cl2 := runC16Seq(c, cs)
+							if m2 == "" {
+								return ""
+							}
+							return fmt.Sprintf("C16:%s:%s:noreads%d", eng, cl2, pi)
+						})
+						continue
+					}
+					c.State(fw.Hash(eng, rule.String(), fmt.Sprint(mask, "noreads", pi)))
+				}
 				for pi, pr := range progs {
 					item++
 					if !c.Mine(item) {
@@ -536,6 +576,9 @@ func runC16(c *fw.Ctx) {
 			scen = append(scen, c16Param{Engine: eng, Rule: rule, Writers: [][]bt.Op{{w}}})
 		}
 		scen = append(scen,
+			c16Param{Engine: eng, Rule: rule, Writers: [][]bt.Op{{{Kind: "DropRowRange", Table: tblT, Prefix: []byte("t")}}}},
+			c16Param{Engine: eng, Rule: rule, Writers: [][]bt.Op{{{Kind: "DropRowRange", Table: tblT, Prefix: []byte("a09")}}}},
+			c16Param{Engine: eng, Rule: rule, Writers: [][]bt.Op{{{Kind: "DropRowRange", Table: tblT, All: true}}}},
 			c16Param{Engine: eng, Rule: rule, Writers: [][]bt.Op{{set("t1")}, {rmw("t2")}}},
 			c16Param{Engine: eng, Rule: rule, Writers: [][]bt.Op{{set("t1"), rmw("t1")}}},
 			c16Param{Engine: eng, Rule: rule, Writers: [][]bt.Op{{del("t2")}, {set("t2")}}},
